@@ -774,7 +774,7 @@ theorem mixed_tx_preserves_sum_partial (hs : List Nat) (hn : hs.Nodup) (steps : 
 call that still sees 50: the transaction succeeds, the contract keeps 40, the other holder has 10, the supply dropped by
 50 — 50 tokens too many (the numbers the harness observes on the real EVM) -/
 theorem mixed_tx_dirty_slot_creates_tokens :
-    let r := txResult [.evm (transfer 0 1 10) 0, .nested (burn 0 50) 50] (store0 50 0 0 100 0) 100
+    let r := txResult [.evm (transfer 0 1 10) 0, .nested (burn 0 50) 50 0] (store0 50 0 0 100 0) 100
     r.1 = true ∧ r.2.1 (.bal 0) = 40 ∧ r.2.1 (.bal 1) = 10 ∧ r.2.1 .supply = 50 ∧ r.2.2 = 50 ∧
     tokDiff [0, 1, 2] r.2.1 = tokDiff [0, 1, 2] (store0 50 0 0 100 0) + 50 := by
   decide
@@ -782,7 +782,7 @@ theorem mixed_tx_dirty_slot_creates_tokens :
 /-- witness 2 (stale origin cache): the contract only READS its balance before `bridgeCall` converts 20 and transfers 5
 afterwards: the transfer starts from the cached pre-conversion balance and its write-back undoes the burn -/
 theorem mixed_tx_stale_read_creates_tokens :
-    let r := txResult [.evm (balanceOf 0) 0, .nested (burn 0 20) 20, .evm (transfer 0 1 5) 0] (store0 50 0 0 100 0) 100
+    let r := txResult [.evm (balanceOf 0) 0, .nested (burn 0 20) 20 0, .evm (transfer 0 1 5) 0] (store0 50 0 0 100 0) 100
     r.1 = true ∧ r.2.1 (.bal 0) = 45 ∧ r.2.1 (.bal 1) = 5 ∧ r.2.1 .supply = 80 ∧
     tokDiff [0, 1, 2] r.2.1 = tokDiff [0, 1, 2] (store0 50 0 0 100 0) + 20 := by
   decide
@@ -798,7 +798,7 @@ example :
 
 /-- the coherence hypothesis is satisfiable by a transaction that does mix direct calls with a nested conversion: the
 contract reads ANOTHER holder's balance, then `bridgeCall` converts -/
-example : CoherentTx [.evm (balanceOf 1) 0, .nested (burn 0 50) 50] ⟨{ store := store0 50 0 0 100 0 }, 100⟩ := by
+example : CoherentTx [.evm (balanceOf 1) 0, .nested (burn 0 50) 50 0] ⟨{ store := store0 50 0 0 100 0 }, 100⟩ := by
   rw [← coherentTxB_iff]; decide
 
 end Mixed
